@@ -68,7 +68,7 @@ def build(case):
     return A
 
 
-def dtype_variants_agree(REC, prop, fname, f, X, args=(), kwargs=None, exact=True, matrix=False):
+def dtype_variants_agree(REC, prop, fname, f, X, args=(), kwargs=None, exact=True, matrix=False, float32=True):
     """Binary / count matrices are naturally stored as bool or integer arrays.  This harness feeds float64 by
     convention; here the same VALUES are passed in other dtypes: whenever the routine returns for them, the result
     must be what it returns for float64 (a routine that raises for a dtype is not judged)."""
@@ -82,6 +82,8 @@ def dtype_variants_agree(REC, prop, fname, f, X, args=(), kwargs=None, exact=Tru
     for dt in (bool, np.int64, np.uint8, np.int8, np.float32):
         if dt is bool and not np.all((X == 0) | (X == 1)):
             continue
+        if dt is np.float32 and not float32:
+            continue     # rounded lengths: equal-length routes may legitimately be told apart differently
         if dt is np.uint8 and (X.min() < 0 or X.max() > 255 or not np.all(X == np.round(X))):
             continue
         if dt is np.int8 and (X.min() < -128 or X.max() > 127 or not np.all(X == np.round(X))):
